@@ -5,8 +5,8 @@
    _handle_connack (delay reset on every accepting CONNACK, CONNECTED unless already DISCONNECTING,
    protocol downgrade with its nested reconnect()),
    disconnect (1873-1892), the DISCONNECT branch of _packet_write (3229-3243).
-   Driven by a script of per-attempt outcomes.  keepalive = 0 (C08 is separate), client id
-   non-empty, no QoS>0 traffic.  Model only, no proofs.
+   Driven by a script of per-attempt outcomes.  Keepalive matters only for the losses LSilent / LWriteErr
+   (C08 is separate), client id non-empty, no QoS>0 traffic.  Model only, no proofs.
 
    Things of the source kept on purpose:
    * reconnect() sets _state = CONNECTING before the socket is created; after a refused FIRST attempt
@@ -25,11 +25,23 @@ Inductive refusal := RfIdentifier | RfUnavailable | RfBadAuth | RfNotAuthorised.
 Definition refusal_code (r : refusal) : Z :=
   match r with RfIdentifier => 2 | RfUnavailable => 3 | RfBadAuth => 4 | RfNotAuthorised => 5 end.
 
+(* how an accepted connection is lost *)
+Inductive loss :=
+| LEof           (* the broker closes lost_after later: recv returns b"" -> _loop_rc_handle(CONN_LOST) *)
+| LRecvErr       (* recv raises (connection reset) lost_after later: same path *)
+| LSilent        (* the broker goes silent: PINGREQ at +K, keepalive expiry at +2K in _check_keepalive (no _loop_rc_handle):
+                    on_disconnect(KEEPALIVE), loop_misc returns CONN_LOST *)
+| LWriteErr      (* the first write after CONNECT fails: the PINGREQ at +K -> loop_write -> _loop_rc_handle(CONN_LOST) *)
+| LServerDisc.   (* the broker sends DISCONNECT lost_after later: MQTT 5 _handle_disconnect (no _loop_rc_handle,
+                    on_disconnect, loop result 0); protocol error on an MQTT 3.1.1 client *)
+
 Inductive outcome :=
 | Refused                          (* _create_socket raises OSError *)
 | ClosedBeforeConnack              (* TCP accepted, EOF before any CONNACK *)
 | ConnackRefused (r : refusal)
-| Accepted (lost_after : Z)        (* CONNACK rc 0; the broker closes lost_after later *)
+| Accepted (lost_after : Z) (how : loss)
+                                   (* CONNACK rc 0 (the back-off is reset there); then the connection is lost:
+                                      how/when see [loss] and [lost_time] *)
 | Downgrade.                       (* CONNACK rc 1 (unacceptable protocol version) *)
 
 Inductive place :=
@@ -40,13 +52,23 @@ Inductive akind := ADisconnect | AStop.        (* disconnect()  |  _thread_termi
 Record action := mkact { a_attempt : Z; a_place : place; a_kind : akind }.
 
 Record config := mkcfg {
-  c_min : Z; c_max : Z; c_retry_first : bool; c_rof : bool; c_act : option action }.
+  c_min : Z; c_max : Z; c_retry_first : bool; c_rof : bool; c_act : option action;
+  c_keepalive : Z;          (* > 0 when the script uses LSilent / LWriteErr *)
+  c_v5 : bool }.            (* MQTT 5 client (server DISCONNECT understood; harness: no CONNACK refusals then) *)
+
+(* time from the CONNACK to the loss *)
+Definition lost_time (cfg : config) (lost_after : Z) (how : loss) : Z :=
+  match how with
+  | LSilent => 2 * Z.max 1 (c_keepalive cfg)
+  | LWriteErr => Z.max 1 (c_keepalive cfg)
+  | _ => lost_after
+  end.
 
 Inductive bcs := BAsync | BConnecting | BConnected | BLost | BDisconnecting | BDisconnected.
 Inductive sockst :=
 | NoSock
 | Pending (o : outcome)                       (* CONNECT written, the broker's reaction is readable *)
-| Up (lost_at : Z) (msg_at : option Z).       (* connected; EOF readable at lost_at, a PUBLISH at msg_at *)
+| Up (lost_at : Z) (how : loss) (msg_at : option Z).   (* connected; lost at lost_at, a PUBLISH at msg_at *)
 
 Inductive ret := RRet (rc : Z) | RRaise | REnd.     (* returned rc | OSError escaped | script exhausted *)
 Inductive pc := PcFirst | PcInner | PcAfterInner (rc : Z) | PcAfterWait (rc : Z) | PcDone (r : ret).
@@ -198,11 +220,12 @@ Definition read_pending (cfg : config) (o : outcome) (s : bst) : lres :=
   match o with
   | Refused | ClosedBeforeConnack => failed cfg 7 s
   | ConnackRefused r => refused_connack cfg (refusal_code r) s
-  | Accepted t =>
+  | Accepted t0 how =>
+      let t := lost_time cfg t0 how in
       (* _handle_connack: CONNECTED unless disconnect() came first; the delay is reset in any case *)
       let s1 := set_delay None (match b_cs s with BDisconnecting => s | _ => set_cs BConnected s end) in
       let (s2, e) := callback cfg PConnect 0 s1 in
-      LRet 0 (set_sock (Up (b_now s + t) (msg_time cfg s t)) s2) (EvAccepted (b_now s) :: e)
+      LRet 0 (set_sock (Up (b_now s + t) how (msg_time cfg s t)) s2) (EvAccepted (b_now s) :: e)
   | Downgrade =>
       if b_p311 s then
         if c_rof cfg then
@@ -218,7 +241,19 @@ Definition read_pending (cfg : config) (o : outcome) (s : bst) : lres :=
       else refused_connack cfg 1 s
   end.
 
-Definition loop_up (cfg : config) (lost_at : Z) (msg : option Z) (s0 : bst) : lres :=
+(* the loss of an established connection: all are "socket closed, state LOST (DISCONNECTED after disconnect()),
+   on_disconnect"; they differ in the reported code and in the result of that _loop() *)
+Definition lose (cfg : config) (how : loss) (s : bst) : lres :=
+  match how with
+  | LEof | LRecvErr => failed cfg 7 s
+  | LWriteErr => failed cfg 7 (set_outq true s)        (* the unwritten PINGREQ stays in _out_packet *)
+  | LSilent => match failed cfg 16 s with LRet _ s1 e => LRet 7 s1 e | other => other end
+  | LServerDisc =>
+      if c_v5 cfg then match failed cfg 0 s with LRet _ s1 e => LRet 0 s1 e | other => other end
+      else failed cfg 2 s
+  end.
+
+Definition loop_up (cfg : config) (lost_at : Z) (how : loss) (msg : option Z) (s0 : bst) : lres :=
   let w := b_outq s0 in
   let due := (lost_at <=? b_now s0) || match msg with Some m => m <=? b_now s0 | None => false end in
   (* nothing readable or writable: select() sleeps (possibly over several time-outs) until the next event *)
@@ -227,12 +262,12 @@ Definition loop_up (cfg : config) (lost_at : Z) (msg : option Z) (s0 : bst) : lr
   match msg with
   | Some m =>
       if m <=? b_now s then
-        let (s1, e1) := callback cfg (PMessage 0) 0 (set_sock (Up lost_at None) s) in
+        let (s1, e1) := callback cfg (PMessage 0) 0 (set_sock (Up lost_at how None) s) in
         if w then let (s2, e2) := write_disconnect cfg s1 in LRet 0 s2 (e1 ++ e2) else LRet 0 s1 e1
-      else if lost_at <=? b_now s then failed cfg 7 s
+      else if lost_at <=? b_now s then lose cfg how s
       else let (s2, e2) := write_disconnect cfg s in LRet 0 s2 e2
   | None =>
-      if lost_at <=? b_now s then failed cfg 7 s
+      if lost_at <=? b_now s then lose cfg how s
       else let (s2, e2) := write_disconnect cfg s in LRet 0 s2 e2
   end.
 
@@ -241,7 +276,7 @@ Definition loop_once (cfg : config) (s : bst) : lres :=
   | NoSock =>        (* select() raises TypeError *)
       LRet 7 (if disc_like (b_cs s) then s else set_cs BLost s) []
   | Pending o => read_pending cfg o s
-  | Up lost_at msg => loop_up cfg lost_at msg s
+  | Up lost_at how msg => loop_up cfg lost_at how msg s
   end.
 
 Definition step (cfg : config) (p : pc) (s : bst) : list bev * pc * bst :=
@@ -390,9 +425,10 @@ Fixpoint downgrade_then_refused (script : list outcome) : bool :=
   end.
 
 (* ---- correspondence entry:
-   [t0; min; max; retry_first; rof; act_attempt (-1 none); act_place; act_arg; act_kind; outcome ...]
+   [t0; min; max; retry_first; rof; keepalive; v5; act_attempt (-1 none); act_place; act_arg; act_kind; outcome ...]
    places 0 connect_fail 1 connect 2 disconnect 3 message(arg) 4 wait(arg); kinds 0 disconnect 1 stop
-   outcomes: 0 refused | 1 closed | 2 rc (2..5) | 3 lost_after | 4 downgrade
+   outcomes: 0 refused | 1 closed | 2 rc (2..5) | 3 lost_after (EOF) | 4 downgrade | 5 lost_after (recv error)
+             | 6 silent (keepalive expiry) | 7 write error at the first PINGREQ | 8 lost_after (server DISCONNECT)
    result: events (code t a b) ... then  -1 ret rc  (ret: 0 returned rc, 1 OSError, 2 script end) *)
 Definition refusal_of_Z (z : Z) : refusal :=
   if z =? 2 then RfIdentifier else if z =? 3 then RfUnavailable else if z =? 4 then RfBadAuth else RfNotAuthorised.
@@ -404,7 +440,11 @@ Fixpoint decode_script (fuel : nat) (l : list Z) : list outcome :=
       | 0 :: r => Refused :: decode_script f r
       | 1 :: r => ClosedBeforeConnack :: decode_script f r
       | 2 :: c :: r => ConnackRefused (refusal_of_Z c) :: decode_script f r
-      | 3 :: t :: r => Accepted t :: decode_script f r
+      | 3 :: t :: r => Accepted t LEof :: decode_script f r
+      | 5 :: t :: r => Accepted t LRecvErr :: decode_script f r
+      | 6 :: r => Accepted 0 LSilent :: decode_script f r
+      | 7 :: r => Accepted 0 LWriteErr :: decode_script f r
+      | 8 :: t :: r => Accepted t LServerDisc :: decode_script f r
       | 4 :: r => Downgrade :: decode_script f r
       | _ => []
       end
@@ -427,11 +467,11 @@ Definition encode_bev (e : bev) : list Z :=
   end.
 Definition entry_backoff (args : list Z) : list Z :=
   match args with
-  | t0 :: mn :: mx :: rf :: rof :: aa :: ap :: ag :: ak :: r =>
+  | t0 :: mn :: mx :: rf :: rof :: ka :: v5 :: aa :: ap :: ag :: ak :: r =>
       let script := decode_script (length r) r in
       let act := if aa <? 0 then None
                  else Some (mkact aa (place_of_Z ap ag) (if ak =? 0 then ADisconnect else AStop)) in
-      let cfg := mkcfg mn mx (negb (rf =? 0)) (negb (rof =? 0)) act in
+      let cfg := mkcfg mn mx (negb (rf =? 0)) (negb (rof =? 0)) act ka (negb (v5 =? 0)) in
       let '(tr, (p, s)) := run_script cfg t0 script in
       flat_map encode_bev tr ++
       match p with
